@@ -321,10 +321,41 @@ def arith(I, st, tys, method, args):
         return NotImplemented
     if method.endswith("_assign") and len(args) == 2:
         cur = dargs[0]
-        nv = derive_ops(I, st, [cur, dargs[1]], ops)
+        nv = derive_roles(I, st, method, dargs, ops)
         I.write_through(st, args[0], nv, strong=True)
         return V("Const(())")
-    return derive_ops(I, st, dargs, ops)
+    return derive_roles(I, st, method, dargs, ops)
+
+
+def derive_roles(I, st, method, dargs, ops):
+    """like derive_ops, but operands of subtractions / divisions also get a directed class
+    (sub:l minuend, sub:r subtrahend, div:l numerator side, div:r denominator)."""
+    from absint import vjoin
+    roles = None
+    if "sub" in ops and len(dargs) == 2:
+        roles = [["sub:l"], ["sub:r"]]
+    elif method in ("from_ratio", "checked_from_ratio") and len(dargs) == 2:
+        roles = [["div:l"], ["div:r"]]
+    elif method in ("checked_div", "div", "checked_div_euclid", "div_euclid", "div_floor", "div_assign", "checked_rem", "rem") and len(dargs) == 2:
+        roles = [["div:l"], ["div:r"]]
+    elif method in ("multiply_ratio", "checked_multiply_ratio") and len(dargs) == 3:
+        roles = [["div:l"], ["div:l"], ["div:r"]]
+    elif method in ("inv",) and len(dargs) == 1:
+        roles = [["div:r"]]
+    elif method in ("checked_mul_floor", "mul_floor", "checked_mul_ceil", "mul_ceil") and len(dargs) == 2:
+        fr = dargs[1]
+        out = derive_ops(I, st, [dargs[0], vfield(fr, "0")], ops + ["div:l"])
+        return vjoin(out, derive_ops(I, st, [vfield(fr, "1")], ops + ["div:r"]))
+    elif method in ("checked_div_floor", "checked_div_ceil", "div_ceil") and len(dargs) == 2 and ("0" in dargs[1].fields or "1" in dargs[1].fields):
+        fr = dargs[1]
+        out = derive_ops(I, st, [dargs[0], vfield(fr, "1")], ops + ["div:l"])
+        return vjoin(out, derive_ops(I, st, [vfield(fr, "0")], ops + ["div:r"]))
+    if roles is None:
+        return derive_ops(I, st, dargs, ops)
+    out = EMPTY
+    for d, r in zip(dargs, roles):
+        out = vjoin(out, derive_ops(I, st, [d], ops + r))
+    return out
 
 
 def derive_ops(I, st, vals, ops):
@@ -821,7 +852,7 @@ def cosmwasm(I, st, frame, t, name, self_ty, tys, trait, method, args, ev):
         if method.startswith("plus_"):
             return derive_ops(I, st, [D(a) for a in args], ["add"])
         if method.startswith("minus_"):
-            return derive_ops(I, st, [D(a) for a in args], ["sub"])
+            return derive_roles(I, st, method, [D(a) for a in args], ["sub"])
     if tys == "Addr":
         if method in ("unchecked", "into_string", "as_str", "to_string", "as_bytes", "as_ref", "clone"):
             return without_call(D(a0))
